@@ -897,6 +897,9 @@ def _get_attribute(obj: Any, attr: str) -> Any:
     """
     if is_private_attribute(attr):
         raise AttributeError("attempt to access private attribute '%s'" % attr)
+    elif inspect.isdatadescriptor(inspect.getattr_static(obj, attr, None)):
+        # a property: looking it up would already run its getter; properties are only reachable via the attribute requests
+        raise AttributeError("attempt to access unexposed attribute '%s'" % attr)
     else:
         obj = getattr(obj, attr)
     if getattr(obj, "_pyroExposed", False):
